@@ -125,6 +125,37 @@ func Families() []Named {
 	}
 }
 
+// BigFamilies are family grammars with large automata; they take part in the
+// table-level explorations and in the generated-parser corpus, but not in the
+// text-edit and permutation explorations (whose cost grows with the text and
+// with the number of states).
+func BigFamilies() []Named {
+	return []Named{
+		// an automaton with more than 300 states, every one of them entered by a terminal
+		// (state numbers reach the neighbourhood of the codes used for "error" and "accept")
+		{"trie-256", Trie(abc[:4], 4)},
+	}
+}
+
+// Trie is the grammar whose sentences are all strings of exactly n terminals:
+// one rule per string, so the automaton is the trie of the strings
+// (1 + t + t^2 + ... + t^n states plus the accepting ones).
+func Trie(terms []string, n int) *Spec {
+	var alts []string
+	var rec func(cur []string)
+	rec = func(cur []string) {
+		if len(cur) == n {
+			alts = append(alts, strings.Join(cur, " "))
+			return
+		}
+		for _, t := range terms {
+			rec(append(append([]string(nil), cur...), t))
+		}
+	}
+	rec(nil)
+	return Parse("S", terms, "S: "+strings.Join(alts, " | "))
+}
+
 // Named2 is a named grammar text.
 type Named2 struct {
 	Name string
